@@ -28,6 +28,8 @@ pub enum IoKind {
     ConnectionReset,
     /// Write side only: `Ok(0)` for a non-empty buffer.
     WriteZero,
+    /// `File::open` / `File::create` only.
+    NotFound,
 }
 
 pub const READ_ERR_KINDS: [IoKind; 8] = [
@@ -51,6 +53,10 @@ pub const WRITE_ERR_KINDS: [IoKind; 7] = [
     IoKind::WriteZero,
 ];
 
+/// What `File::open` / `File::create` fail with (path wrappers, through the File seam).
+pub const OPEN_ERR_KINDS: [IoKind; 6] =
+    [IoKind::NotFound, IoKind::PermissionDenied, IoKind::Other, IoKind::StorageFull, IoKind::TimedOut, IoKind::InvalidData];
+
 impl IoKind {
     pub fn to_std(self) -> io::ErrorKind {
         use io::ErrorKind as E;
@@ -65,6 +71,7 @@ impl IoKind {
             IoKind::PermissionDenied => E::PermissionDenied,
             IoKind::ConnectionReset => E::ConnectionReset,
             IoKind::WriteZero => E::WriteZero,
+            IoKind::NotFound => E::NotFound,
         }
     }
 }
@@ -129,6 +136,10 @@ pub struct ReaderCfg {
     /// this error (a closed pipe or socket polled again).
     #[serde(default)]
     pub err_after_eof: Option<IoKind>,
+    /// Path wrappers only (through the File seam): `File::open` itself fails with this
+    /// error (a vanished or unreadable file, a failing mount).
+    #[serde(default)]
+    pub open_err: Option<IoKind>,
 }
 
 impl ReaderCfg {
@@ -141,6 +152,7 @@ impl ReaderCfg {
             early_eof: None,
             eintr_at_eof: 0,
             err_after_eof: None,
+            open_err: None,
         }
     }
 }
@@ -166,6 +178,10 @@ pub struct WriterCfg {
     pub err: Option<StreamErr>,
     /// Error surfaced only at `flush`, sticky.
     pub flush_err: Option<IoKind>,
+    /// Path wrapper only (through the File seam): `File::create` itself fails with this
+    /// error (read-only or full file system, missing directory).
+    #[serde(default)]
+    pub create_err: Option<IoKind>,
 }
 
 impl WriterCfg {
@@ -177,6 +193,7 @@ impl WriterCfg {
             flush_eintr_at: vec![],
             err: None,
             flush_err: None,
+            create_err: None,
         }
     }
 }
@@ -240,6 +257,8 @@ ledger_kinds!(
     garbage_block,
     copy_block,
     read_err_after_eof,
+    open_err,
+    create_err,
     // bookkeeping (not faults)
     read_calls,
     write_calls,
@@ -282,10 +301,10 @@ impl Ledger {
             .sum()
     }
     pub fn read_destructive(&self) -> u64 {
-        self.get(K::read_err) + self.get(K::early_eof) + self.get(K::early_eof_resumed) + self.get(K::read_err_after_eof)
+        self.get(K::read_err) + self.get(K::early_eof) + self.get(K::early_eof_resumed) + self.get(K::read_err_after_eof) + self.get(K::open_err)
     }
     pub fn write_destructive(&self) -> u64 {
-        self.get(K::write_err) + self.get(K::write_zero) + self.get(K::flush_err)
+        self.get(K::write_err) + self.get(K::write_zero) + self.get(K::flush_err) + self.get(K::create_err)
     }
     pub fn storage_fired(&self) -> u64 {
         [K::crash_write, K::truncate, K::bitflip, K::zero_block, K::lost_block, K::dup_block, K::garbage_block, K::copy_block]
@@ -385,6 +404,7 @@ pub struct SrcCore {
     eintr_at_eof: u8,
     err_after_eof: Option<IoKind>,
     real_eof_reported: bool,
+    open_err: Option<IoKind>,
     limit: u32,
     log: Rc<RefCell<Log>>,
 }
@@ -418,10 +438,22 @@ impl SimSource {
             eintr_at_eof,
             err_after_eof: cfg.err_after_eof,
             real_eof_reported: false,
+            open_err: cfg.open_err,
             limit,
             log,
         }));
         (SimSource { core: core.clone(), hi }, core)
+    }
+
+    /// The answer of `File::open` for this source, when the scenario makes it fail.
+    #[allow(dead_code)]
+    fn open_fault(&self) -> Option<io::Error> {
+        let c = self.core.borrow();
+        let k = c.open_err?;
+        let mut log = c.log.borrow_mut();
+        log.ledger.bump(K::open_err);
+        log.event('O', 0, 0, "open_err", k as usize);
+        Some(k.to_std().into())
     }
 
     /// Splits into two handles over the same core: `[0, split)` and `[split, len)`.
@@ -571,6 +603,7 @@ pub struct SinkCore {
     flush_eintr_at: Vec<u32>,
     err: Option<StreamErr>,
     flush_err: Option<IoKind>,
+    create_err: Option<IoKind>,
     calls: u32,
     flush_calls: u32,
     consecutive_eintr: u8,
@@ -600,6 +633,7 @@ impl SimSink {
             flush_eintr_at: cfg.flush_eintr_at.clone(),
             err: cfg.err,
             flush_err: cfg.flush_err,
+            create_err: cfg.create_err,
             calls: 0,
             flush_calls: 0,
             consecutive_eintr: 0,
@@ -609,6 +643,17 @@ impl SimSink {
             log,
         }));
         (SimSink { core: core.clone() }, core)
+    }
+
+    /// The answer of `File::create` for this sink, when the scenario makes it fail.
+    #[allow(dead_code)]
+    fn create_fault(&self) -> Option<io::Error> {
+        let c = self.core.borrow();
+        let k = c.create_err?;
+        let mut log = c.log.borrow_mut();
+        log.ledger.bump(K::create_err);
+        log.event('C', 0, 0, "create_err", k as usize);
+        Some(k.to_std().into())
     }
 }
 
@@ -847,6 +892,10 @@ struct OneFile {
     path: std::path::PathBuf,
     src: RefCell<Option<SimSource>>,
     sink: RefCell<Option<SimSink>>,
+    /// The file's bytes and the run's log, for a wrapper that opens the file again
+    /// (sniffing the format first, retrying after a failed open): every later open
+    /// finds the same file, behaving plainly.
+    again: Option<(Vec<u8>, Rc<RefCell<Log>>)>,
 }
 
 #[cfg(retrofire_verif)]
@@ -855,9 +904,16 @@ impl re::util::verif_fs::SimFs for OneFile {
         if path != self.path {
             return None;
         }
-        Some(match self.src.borrow_mut().take() {
-            Some(s) => Ok(Box::new(s) as Box<dyn Read>),
-            None => Err(io::ErrorKind::NotFound.into()),
+        Some(match (self.src.borrow_mut().take(), &self.again) {
+            (Some(s), _) => match s.open_fault() {
+                Some(e) => Err(e),
+                None => Ok(Box::new(s) as Box<dyn Read>),
+            },
+            (None, Some((data, log))) => {
+                log.borrow_mut().event('O', 1, 0, "reopen", data.len());
+                Ok(Box::new(SimSource::new(data.clone(), &ReaderCfg::plain(), log.clone()).0) as Box<dyn Read>)
+            }
+            (None, None) => Err(io::ErrorKind::NotFound.into()),
         })
     }
     fn create(&self, path: &std::path::Path) -> Option<io::Result<Box<dyn Write>>> {
@@ -865,7 +921,10 @@ impl re::util::verif_fs::SimFs for OneFile {
             return None;
         }
         Some(match self.sink.borrow_mut().take() {
-            Some(s) => Ok(Box::new(s) as Box<dyn Write>),
+            Some(s) => match s.create_fault() {
+                Some(e) => Err(e),
+                None => Ok(Box::new(s) as Box<dyn Write>),
+            },
             None => Err(io::ErrorKind::PermissionDenied.into()),
         })
     }
@@ -907,7 +966,11 @@ pub fn drive_reader<C: ReadConsumer>(stack: RStack, src: SimSource, c: C) -> C::
             let path = sim_path();
             // the same bytes as a real file, for a wrapper that goes around the seam
             let _ = std::fs::write(&path, &src.core.borrow().data);
-            re::util::verif_fs::install(Some(Box::new(OneFile { path: path.clone(), src: RefCell::new(Some(src)), sink: RefCell::new(None) })));
+            let again = {
+                let c = src.core.borrow();
+                Some((c.data.clone(), c.log.clone()))
+            };
+            re::util::verif_fs::install(Some(Box::new(OneFile { path: path.clone(), src: RefCell::new(Some(src)), sink: RefCell::new(None), again })));
             let _guard = Uninstall;
             c.consume_path(&path)
         }
@@ -972,7 +1035,7 @@ pub fn drive_writer<C: WriteConsumer>(stack: WStack, sink: SimSink, c: C) -> (C:
             let path = sim_path();
             let _ = std::fs::remove_file(&path);
             let core = sink.core.clone();
-            re::util::verif_fs::install(Some(Box::new(OneFile { path: path.clone(), src: RefCell::new(None), sink: RefCell::new(Some(sink)) })));
+            re::util::verif_fs::install(Some(Box::new(OneFile { path: path.clone(), src: RefCell::new(None), sink: RefCell::new(Some(sink)), again: None })));
             let _guard = Uninstall;
             let out = c.consume_path(&path);
             // a wrapper that went around the seam wrote a real file: that is the disk then
